@@ -37,7 +37,8 @@ CONSTANTS
   ReqC,        \* [Reqs -> Clients \cup {"-"}]
   ReqK,        \* [Reqs -> {"sync", "detach", "cdetach", "compact"}]
   NLocal,      \* [Clients -> Nat] unsent local changes of each client at the start
-  Before(_, _) \* order in which requests of one client are started
+  Before(_, _), \* order in which requests of one client are started
+  ClusterPullFirst \* TRUE models the cluster DetachDocument handler as it was before the lock-order fix
 
 VARIABLES log, ci, rows, epoch, lk, rq, cst, hist
 vars == <<log, ci, rows, epoch, lk, rq, cst, hist>>
@@ -76,8 +77,8 @@ Start(r) ==
          pack == IF c \in Clients
                  THEN [chs |-> cst[c].pend, reqcp |-> [s |-> cst[c].cp.s, c |-> cst[c].cp.c + Len(cst[c].pend)], vv |-> cst[c].vv]
                  ELSE [chs |-> <<>>, reqcp |-> [s |-> 0, c |-> 0], vv |-> NoVV]
-     IN IF Kind(r) = "cdetach"
-        THEN rq' = [rq EXCEPT ![r] = [pc |-> "w_pull", pack |-> pack]]            \* cluster DetachDocument: pull first
+     IN IF Kind(r) = "cdetach" /\ ClusterPullFirst
+        THEN rq' = [rq EXCEPT ![r] = [pc |-> "w_pull", pack |-> pack]]            \* the order before fix de5cafc4..: pull first
         ELSE rq' = [rq EXCEPT ![r] = [pc |-> "w_doc", pack |-> pack]]
   /\ lk' = IF Kind(r) = "compact" THEN [lk EXCEPT !.docWW = @ \cup {r}] ELSE lk
   /\ cst' = IF Cl(r) \in Clients /\ Kind(r) # "cdetach" THEN [cst EXCEPT ![Cl(r)].latest = r] ELSE cst
@@ -91,7 +92,7 @@ AcqDoc(r) ==
           /\ rq' = [rq EXCEPT ![r].pc = "compact"]
      ELSE /\ CanRLockDoc
           /\ lk' = [lk EXCEPT !.docR = @ \cup {r}]
-          /\ rq' = [rq EXCEPT ![r].pc = IF Kind(r) = "cdetach" THEN "enter" ELSE "w_pull"]
+          /\ rq' = [rq EXCEPT ![r].pc = IF Kind(r) = "cdetach" /\ ClusterPullFirst THEN "enter" ELSE "w_pull"]
   /\ Step(r) /\ UNCHANGED <<log, ci, rows, epoch, cst>>
 
 \* pull lock, then clients.FindActiveClientInfo: the stored client info is read here
@@ -106,7 +107,7 @@ AcqPull(r) ==
          chs == IF Kind(r) = "cdetach" THEN <<[cs |-> info.c + 1, lam |-> 0, vv |-> NoVV]>>
                 ELSE rq[r].pack.chs
          reqcp == IF Kind(r) = "cdetach" THEN [s |-> info.s, c |-> info.c] ELSE rq[r].pack.reqcp
-     IN rq' = [rq EXCEPT ![r] = [pc |-> IF Kind(r) = "cdetach" THEN "w_doc" ELSE "enter",
+     IN rq' = [rq EXCEPT ![r] = [pc |-> IF Kind(r) = "cdetach" /\ ClusterPullFirst THEN "w_doc" ELSE "enter",
                                  info |-> info, chs |-> chs, reqcp |-> reqcp,
                                  vv |-> IF Kind(r) = "cdetach" THEN NoVV ELSE rq[r].pack.vv,
                                  status |-> IF Kind(r) = "sync" THEN "attached" ELSE "detached",
